@@ -25,7 +25,7 @@ type Choice struct {
 	Handlers     int      `json:"handlers"` // bit mask exit success failure cancel
 	Functions    bool     `json:"functions"`
 	NSteps       int      `json:"nSteps"`
-	StepKinds    []int    `json:"stepKinds"` // per step: 0 command string, 1 command list, 2 script, 3 executor string, 4 executor map, 5 call, 6 run (sub workflow)
+	StepKinds    []int    `json:"stepKinds"` // per step: 0 command string, 1 command list, 2 script, 3 executor string, 4 executor map, 5 call, 6 run (sub workflow), 7..10 hollow (executor key without a type and nothing else to execute)
 	Deps         bool     `json:"deps"`
 	Extras       int      `json:"extras"` // bit mask of optional blocks: smtp mailOn errorMail infoMail misc preconditions tags-list stepOptions
 	LogDir       bool     `json:"logDir"`
@@ -126,6 +126,20 @@ func step(c Choice, val ValFn, path string, name string, kind int, deps []string
 			kv("query", M{kv("q", val(path+".executor.config.query.q", "1"))}),
 		})}))
 		m = append(m, kv("command", val(path+".command", "GET http://127.0.0.1:1/x")))
+	case 7, 8, 9, 10:
+		// hollow steps: an `executor` key is present but says nothing, and there
+		// is no command, script, call or run — nothing to execute (not produced
+		// by GenChoice; a check sets these kinds itself)
+		switch kind {
+		case 7:
+			m = append(m, kv("executor", ""))
+		case 8:
+			m = append(m, kv("executor", M{}))
+		case 9:
+			m = append(m, kv("executor", M{kv("type", "")}))
+		case 10:
+			m = append(m, kv("executor", M{kv("config", M{kv("timeout", 5)})}))
+		}
 	case 5:
 		m = append(m, kv("call", M{kv("function", val(path+".call.function", "fn1")), kv("args", M{kv("a", val(path+".call.args.a", "1")), kv("b", 2)})}))
 	case 6:
